@@ -14,17 +14,24 @@ structure Flags (l : Life) : Prop where
   inc : l.inClose = true → l.closed = true
   tab : l.tablesCleared = true → l.cleaned = true
 
-theorem flags_initWith (hr : Bool) : Flags (Life.initWith hr) := by
+theorem flags_initWith (hr cr : Bool) : Flags (Life.initWith hr cr) := by
   constructor <;> simp [Life.initWith]
 
-theorem flags_init : Flags Life.init := flags_initWith false
+theorem flags_init : Flags Life.init := flags_initWith false false
+
+/-- **obligation on the code** (measured on the live `Connection._cleanup`): when the stream's own close() raises,
+the disconnect hook still runs and everything is still released -/
+theorem cleanup_survives_channel_close_error : Gen.Proto.cleanupSurvivesChannelCloseError = true := by decide
+
+/-- **obligation on the code** (measured): a second `_cleanup` on the same connection returns quietly -/
+theorem cleanup_idempotent : Gen.Proto.cleanupIdempotent = true := by decide
 
 theorem cleanup_flags (l : Life) (hhook : l.hookRuns = if l.cleaned then 1 else 0)
     (htab : l.cleaned = true → l.tablesCleared = true) :
     (cleanup l).1.cleaned = true ∧ (cleanup l).1.closed = true ∧ (cleanup l).1.chanClosed = true
-    ∧ (cleanup l).1.tablesCleared = true ∧ (cleanup l).1.hookRuns = 1 ∧ (cleanup l).1.inClose = l.inClose
-    ∧ ((cleanup l).2 = true ↔ l.cleaned = true) := by
+    ∧ (cleanup l).1.tablesCleared = true ∧ (cleanup l).1.hookRuns = 1 ∧ (cleanup l).1.inClose = l.inClose := by
   unfold cleanup
+  simp only [cleanup_survives_channel_close_error, Bool.not_true, Bool.and_false, Bool.false_eq_true, if_false]
   by_cases hc : l.cleaned = true
   · have := htab hc
     have hh := hhook
@@ -36,9 +43,24 @@ theorem cleanup_flags (l : Life) (hhook : l.hookRuns = if l.cleaned then 1 else 
 
 theorem cleanup_lists (l : Life) :
     (cleanup l).1.outcomes = l.outcomes ∧ (cleanup l).1.fromPeer = l.fromPeer ∧ (cleanup l).1.pending = l.pending
-    ∧ (cleanup l).1.blocked = l.blocked ∧ (cleanup l).1.issued = l.issued := by
+    ∧ (cleanup l).1.blocked = l.blocked ∧ (cleanup l).1.issued = l.issued
+    ∧ (cleanup l).1.closeRaised = l.closeRaised := by
   unfold cleanup
-  split <;> simp
+  split
+  · simp
+  · split <;> simp
+
+/-- a second `_cleanup` never raises AttributeError -/
+theorem cleanup_no_attribute_error (l : Life) : (cleanup l).2 ≠ some .attributeError := by
+  unfold cleanup
+  simp only [cleanup_idempotent, if_true]
+  split
+  · simp
+  · split
+    · simp
+    · split
+      · simp
+      · split <;> simp
 
 theorem flags_of_cleaned (l : Life) (hc : l.cleaned = true) (hcl : l.closed = true) (hch : l.chanClosed = true)
     (ht : l.tablesCleared = true) (hh : l.hookRuns = 1) (hi : l.inClose = true → l.closed = true) : Flags l := by
@@ -49,48 +71,47 @@ theorem flags_of_cleaned (l : Life) (hc : l.cleaned = true) (hcl : l.closed = tr
   · exact hi
   · intro _; exact hc
 
+theorem finishClose_fst (r : TryRes) (l : Life) : (finishClose r l).1 = { (cleanup l).1 with inClose := false } := by
+  unfold finishClose
+  rcases hcu : cleanup l with ⟨l', e⟩
+  cases e with
+  | some e => rfl
+  | none =>
+    cases r with
+    | sent => rfl
+    | eof => rfl
+    | hookRaised c => cases c <;> rfl
+
 theorem finishClose_flags (r : TryRes) (l : Life) (hhook : l.hookRuns = if l.cleaned then 1 else 0)
     (htab : l.cleaned = true → l.tablesCleared = true) :
     Flags (finishClose r l).1 ∧ (finishClose r l).1.cleaned = true ∧ (finishClose r l).1.closed = true
     ∧ (finishClose r l).1.inClose = false ∧ (finishClose r l).1.hookRuns = 1
     ∧ (finishClose r l).1.tablesCleared = true ∧ (finishClose r l).1.chanClosed = true := by
-  have hc := cleanup_flags l hhook htab
-  unfold finishClose
-  rcases hcu : cleanup l with ⟨l', b⟩
-  rw [hcu] at hc
-  obtain ⟨h1, h2, h3, h4, h5, _, _⟩ := hc
-  cases b with
-  | true => exact ⟨flags_of_cleaned _ h1 h2 h3 h4 h5 (fun _ => h2), h1, h2, rfl, h5, h4, h3⟩
-  | false =>
-    by_cases hk : l.hookRaises = true
-    · simp only [hk, if_true]
-      refine ⟨flags_of_cleaned _ h1 h2 h3 h4 h5 (fun _ => h2), h1, h2, ?_, h5, h4, h3⟩
-      first | rfl | trivial
-    · simp only [hk, Bool.false_eq_true, if_false]
-      cases r with
-      | sent => exact ⟨flags_of_cleaned _ h1 h2 h3 h4 h5 (fun _ => h2), h1, h2, rfl, h5, h4, h3⟩
-      | eof => exact ⟨flags_of_cleaned _ h1 h2 h3 h4 h5 (fun _ => h2), h1, h2, rfl, h5, h4, h3⟩
-      | hookRaised c =>
-        cases c <;> exact ⟨flags_of_cleaned _ h1 h2 h3 h4 h5 (fun _ => h2), h1, h2, rfl, h5, h4, h3⟩
+  obtain ⟨h1, h2, h3, h4, h5, _⟩ := cleanup_flags l hhook htab
+  rw [finishClose_fst]
+  exact ⟨flags_of_cleaned _ h1 h2 h3 h4 h5 (fun _ => h2), h1, h2, rfl, h5, h4, h3⟩
 
 theorem finishClose_lists (r : TryRes) (l : Life) :
     (finishClose r l).1.outcomes = l.outcomes ∧ (finishClose r l).1.fromPeer = l.fromPeer
     ∧ (finishClose r l).1.pending = l.pending ∧ (finishClose r l).1.blocked = l.blocked
     ∧ (finishClose r l).1.issued = l.issued := by
   have hl := cleanup_lists l
+  rw [finishClose_fst]
+  exact ⟨hl.1, hl.2.1, hl.2.2.1, hl.2.2.2.1, hl.2.2.2.2.1⟩
+
+/-- `close()` never raises AttributeError -/
+theorem finishClose_no_attribute_error (r : TryRes) (l : Life) : (finishClose r l).2 ≠ some .attributeError := by
+  have h := cleanup_no_attribute_error l
   unfold finishClose
-  rcases hcu : cleanup l with ⟨l', b⟩
-  rw [hcu] at hl
-  cases b with
-  | true => simpa using hl
-  | false =>
-    by_cases hk : l.hookRaises = true
-    · simpa [hk] using hl
-    · simp only [hk, if_false, Bool.false_eq_true]
-      cases r with
-      | sent => simpa using hl
-      | eof => simpa using hl
-      | hookRaised c => cases c <;> simpa using hl
+  rcases hcu : cleanup l with ⟨l', e⟩
+  rw [hcu] at h
+  cases e with
+  | some e => simpa using h
+  | none =>
+    cases r with
+    | sent => simp
+    | eof => simp
+    | hookRaised c => cases c <;> simp
 
 /-- a `close()` the connection calls itself: afterwards the side is closed; outside another `close()` call it
 is also cleaned up -/
@@ -436,10 +457,10 @@ structure Inv (l : Life) : Prop where
   flags : Flags l
   vals : Vals l
 
-theorem inv_initWith (hr : Bool) : Inv (Life.initWith hr) :=
-  ⟨flags_initWith hr, by intro s v hm; simp [Life.initWith] at hm⟩
+theorem inv_initWith (hr cr : Bool) : Inv (Life.initWith hr cr) :=
+  ⟨flags_initWith hr cr, by intro s v hm; simp [Life.initWith] at hm⟩
 
-theorem inv_init : Inv Life.init := inv_initWith false
+theorem inv_init : Inv Life.init := inv_initWith false false
 
 theorem step_inv (l l' : Life) (e : Ev) (hs : step l e = some l') (h : Inv l) : Inv l' :=
   ⟨step_flags l l' e hs h.flags, step_vals l l' e hs h.vals⟩
@@ -455,12 +476,13 @@ theorem run_inv (es : List Ev) : ∀ (l l' : Life), run l es = some l' → Inv l
       exact ih l1 l' h (step_inv l l1 e hl1 hi)
     · cases h
 
-/-- reachable from the initial state, whether this side's disconnect hook returns or raises -/
-def Reach (l : Life) : Prop := ∃ hookRaises es, run (Life.initWith hookRaises) es = some l
+/-- reachable from the initial state — whether this side's disconnect hook returns or raises, whether its stream closes
+quietly or its close() raises -/
+def Reach (l : Life) : Prop := ∃ hookRaises chanCloseRaises es, run (Life.initWith hookRaises chanCloseRaises) es = some l
 
 theorem Reach.inv {l : Life} (h : Reach l) : Inv l := by
-  obtain ⟨hk, es, hr⟩ := h
-  exact run_inv es _ _ hr (inv_initWith hk)
+  obtain ⟨hk, ck, es, hr⟩ := h
+  exact run_inv es _ _ hr (inv_initWith hk ck)
 
 /-! ### nobody stays blocked -/
 
@@ -629,8 +651,8 @@ structure Clean (l : Life) : Prop where
   channel : l.chanClosed = true
 
 theorem reach_step {l l' : Life} {e : Ev} (h : Reach l) (hs : step l e = some l') : Reach l' := by
-  obtain ⟨hk, es, hr⟩ := h
-  refine ⟨hk, es ++ [e], ?_⟩
+  obtain ⟨hk, ck, es, hr⟩ := h
+  refine ⟨hk, ck, es ++ [e], ?_⟩
   have key : ∀ (es : List Ev) (t : Life), run t es = some l → run t (es ++ [e]) = some l' := by
     intro es
     induction es with
